@@ -2,6 +2,7 @@ import Mouette.Lemmas.MeshHeap
 import Mouette.Lemmas.MeshAlgebra
 import Mouette.Lemmas.MeshBBox
 import Mouette.Lemmas.MeshCopy
+import Mouette.Generated.C06
 /-
 C06 — meshes have value semantics: copy, merge and transforms never alias.
 
@@ -574,5 +575,114 @@ theorem wfx_run (ops : List OpX) : AliasFree (runX initX ops).st ∧ AttrWF (run
   induction ops with
   | nil => intro s h; exact h
   | cons op ops ih => intro s h; exact ih _ (hstep s op h.1 h.2)
+
+/-! ## round 3: translated fragments of transform.py / mesh.py (re-extracted from the source on every run) -/
+
+/-- bridge: the per-vertex expression of `translate` written in the source is the model's map (and the loop REBINDS:
+the translator refuses an in-place `+=`) -/
+theorem gen_translate_eq (p t : V3) : Generated.C06.translateExpr p t = p.add t := by
+  cases p; cases t
+  try simp only [Generated.C06.translateExpr, V3.add, V3.mk.injEq]
+  try (refine ⟨by ring, by ring, by ring⟩)
+
+/-- bridge: `scale` -/
+theorem gen_scale_eq (k : Rat) (o p : V3) : Generated.C06.scaleExpr k o p = scaleMap k o p := by
+  cases p; cases o
+  try simp only [Generated.C06.scaleExpr, scaleMap, V3.add, V3.sub, V3.smul, V3.mk.injEq]
+  try (refine ⟨by ring, by ring, by ring⟩)
+
+/-- bridge: `rotate` -/
+theorem gen_rotate_eq (r : M3) (o p : V3) : Generated.C06.rotateExpr r o p = rotateMap r o p := by
+  obtain ⟨⟨a11, a12, a13⟩, ⟨a21, a22, a23⟩, ⟨a31, a32, a33⟩⟩ := r
+  cases p; cases o
+  try simp only [Generated.C06.rotateExpr, rotateMap, M3.apply, V3.add, V3.sub, V3.dot, V3.mk.injEq]
+  try (refine ⟨by ring, by ring, by ring⟩)
+
+/-- bridge: `scale_xyz` -/
+theorem gen_scaleXyz_eq (fx fy fz : Rat) (o p : V3) : Generated.C06.scaleXyzExpr fx fy fz o p = scaleXyzMap fx fy fz o p := by
+  cases p; cases o
+  try simp only [Generated.C06.scaleXyzExpr, scaleXyzMap, V3.add, V3.mk.injEq]
+  try (refine ⟨by ring, by ring, by ring⟩)
+
+/-- bridge: `normalize` as written (which box point is subtracted, which multiple of `1/max span` is applied, per value
+of `center_at_zero`) is the model's `normalize` -/
+theorem gen_normalize_eq (c : Bool) (s : State) (i : Nat) (m : Mesh) (hm : s.meshes[i]? = some m) :
+    normalize c s i =
+      scale ((Generated.C06.normalizeSpec c).2 * (1 / maxSpan (coords s.heap m))) V3.zero
+        (translate (match (Generated.C06.normalizeSpec c).1 with
+                    | .center => center (coords s.heap m)
+                    | .mini => bbMin (coords s.heap m)).neg s i) i := by
+  cases c with
+  | true => simp only [normalize, hm, if_true, Generated.C06.normalizeSpec]
+  | false =>
+    simp only [normalize, hm, Bool.false_eq_true, if_false, Generated.C06.normalizeSpec]
+    rw [one_mul]
+
+/-- bridge: `merge`: the index shift and the running offset written in the source are the model's (`shift`,
+`mergeStep`), the offset advancing by the vertex count of EVERY input, whatever its kind -/
+theorem gen_merge_eq (off u n : Nat) :
+    Generated.C06.mergeShift off u = u + off ∧ Generated.C06.mergeOffsetAfter off n = off + n ∧
+    Generated.C06.mergeElementKinds = ["edges", "faces", "cells"] ∧
+    (∀ (m : Mesh) (acc : MergeAcc Nat) (pl : Mesh → List Nat),
+      (mergeStep pl acc m).offset = Generated.C06.mergeOffsetAfter acc.offset m.verts.length ∧
+      (mergeStep pl acc m).edges = acc.edges ++ m.edges.map (fun e => e.map (Generated.C06.mergeShift acc.offset))) := by
+  refine ⟨by simp only [Generated.C06.mergeShift]; omega, rfl, rfl, ?_⟩
+  intro m acc pl
+  refine ⟨rfl, ?_⟩
+  simp only [mergeStep, shift, Generated.C06.mergeShift]
+  congr 1
+  apply List.map_congr_left; intro e _
+  apply List.map_congr_left; intro u _; simp only [Generated.C06.mergeShift]; omega
+
+/-! ## round 3: histories on one object -/
+
+/-- P0 `transform_twice`: applying two rebinding transforms one after the other to the SAME mesh is the composition of
+the two maps (the n-th transform of a used mesh acts on what the previous ones left), other meshes untouched -/
+theorem transform_twice (f g : V3 → V3) (s : State) (i : Nat) (m : Mesh) (hm : s.meshes[i]? = some m) (hwf : WF s) :
+    ∃ m2, (mapRebind g (mapRebind f s i) i).meshes[i]? = some m2 ∧
+      coords (mapRebind g (mapRebind f s i) i).heap m2 = (coords s.heap m).map (g ∘ f) ∧
+      (∀ j mj, j ≠ i → s.meshes[j]? = some mj →
+        (mapRebind g (mapRebind f s i) i).meshes[j]? = some mj ∧
+        coords (mapRebind g (mapRebind f s i) i).heap mj = coords s.heap mj) := by
+  obtain ⟨_, ⟨m1, a2, a3, _⟩, a7⟩ := mapRebind_spec f s i m hm hwf
+  obtain ⟨_, ⟨m2, b2, b3, _⟩, b7⟩ := mapRebind_spec g (mapRebind f s i) i m1 a2 (wf_mapRebind f s i hwf)
+  refine ⟨m2, b2, by rw [b3, a3, List.map_map], ?_⟩
+  intro j mj hji hj
+  obtain ⟨c1, c2⟩ := a7 j mj hji hj
+  obtain ⟨d1, d2⟩ := b7 j mj hji c1
+  exact ⟨d1, by rw [d2, c2]⟩
+
+/-- P0 `copy_of_copy`: a copy of a copy has the coordinates and elements of the ORIGINAL and lives in cells disjoint from
+both (the history "copy, then copy the copy" on one mesh) -/
+theorem copy_of_copy (s : State) (i : Nat) (m : Mesh) (hm : s.meshes[i]? = some m) (hwf : WF s) :
+    ∃ m1 m2, (copyMesh (copyMesh s i) s.meshes.length).meshes = s.meshes ++ [m1, m2] ∧
+      coords (copyMesh (copyMesh s i) s.meshes.length).heap m2 = coords s.heap m ∧
+      coords (copyMesh (copyMesh s i) s.meshes.length).heap m1 = coords s.heap m ∧
+      m2.edges = m.edges ∧ m2.faces = m.faces ∧ m2.cells = m.cells ∧
+      (∀ r ∈ m2.verts, r ∉ m1.verts ∧ r ∉ m.verts) := by
+  obtain ⟨m1, a1, a2, a3, a4, a5, _, a7, a8, a9⟩ := copy_equal_disjoint s i m hm hwf
+  have hwf1 : WF (copyMesh s i) := by
+    have : copyMesh s i = newMesh s (coords s.heap m) m.edges m.faces m.cells := by simp only [copyMesh, hm]
+    rw [this]; exact wf_newMesh s _ _ _ _ hwf
+  have hm1 : (copyMesh s i).meshes[s.meshes.length]? = some m1 := by
+    rw [a1, List.getElem?_append_right (Nat.le_refl _)]; simp
+  obtain ⟨m2, b1, b2, b3, b4, b5, _, b7, b8, b9⟩ := copy_equal_disjoint (copyMesh s i) s.meshes.length m1 hm1 hwf1
+  refine ⟨m1, m2, by rw [b1, a1]; simp, by rw [b2, a2], ?_, by rw [b3, a3], by rw [b4, a4], by rw [b5, a5], ?_⟩
+  · rw [b9 m1 (by rw [a1]; simp), a2]
+  · intro r hr
+    obtain ⟨_, hnot⟩ := b7 r hr
+    exact ⟨hnot m1 (by rw [a1]; simp), hnot m (by rw [a1]; exact List.mem_append_left _ (mem_of_getElem? hm))⟩
+
+/-- P0 `merge_with_own_copy`: merging a mesh with its own copy (or with itself) gives two shifted blocks of the same
+coordinates in fresh cells: instance of `merge_is_disjoint_union` for the id lists `[i, j]` / `[i, i]` -/
+theorem merge_with_own_copy (s : State) (i j : Nat) (mi mj : Mesh) (hi : s.meshes[i]? = some mi) (hj : s.meshes[j]? = some mj)
+    (hwf : WF s) :
+    ∃ m', (mergeMeshes s [i, j]).meshes = s.meshes ++ [m'] ∧
+      coords (mergeMeshes s [i, j]).heap m' = coords s.heap mi ++ coords s.heap mj ∧
+      m'.edges = shift 0 mi.edges ++ shift mi.verts.length mj.edges ∧
+      (∀ r ∈ m'.verts, ∀ m0 ∈ s.meshes, r ∉ m0.verts) ∧ m'.verts.Nodup := by
+  have hl : lookupAll s.meshes [i, j] = some [mi, mj] := by simp [lookupAll, hi, hj]
+  obtain ⟨m', h1, h2, _, h4, _, _, _, _, h9, h10, _⟩ := merge_is_disjoint_union s [i, j] [mi, mj] hl hwf
+  refine ⟨m', h1, by rw [h2]; simp, by rw [h4]; simp [shiftedFrom], fun r hr m0 hm0 => (h9 r hr).2 m0 hm0, h10⟩
 
 end Mouette.Props.C06
